@@ -161,6 +161,24 @@ def rule_recovery(report, prog):
                  'retransmission' % (sorted(kinds), sorted(accepted - kinds), '/'.join(sorted(accepted - kinds))))
 
 
+def rule_timeout_recovery(report, prog, rule='C04-R6'):
+    """After a timeout the Initiator cannot know which frame was lost -- its request or the answer.  A NACK asks for the *previous*
+    response again, which is only right when the Target has seen the request; so the timeout handler of
+    send_dep_req_recv_dep_res goes through the attention request and then sends the same request again, and never answers a timeout
+    with request_retransmission (a lost ACK would make the Target repeat the frame before it: wrong packet number)."""
+    f = prog.func('nfc.dep.Initiator.send_dep_req_recv_dep_res')
+    handlers = [h for t in walk_no_nested(f.node) if isinstance(t, ast.Try) for h in t.handlers
+                if h.type is not None and norm(h.type).endswith('TimeoutError')
+                and any(isinstance(c, ast.Call) and norm(c.func).endswith('send_req_recv_res') for st in t.body for c in ast.walk(st))]
+    report.floor(rule + ' timeout handler of the request loop', len(handlers), 1)
+    for h in handlers:
+        called = [norm(c.func).split('.')[-1] for st in h.body for c in ast.walk(st) if isinstance(c, ast.Call)]
+        okk = 'request_retransmission' not in called and 'request_attention' in called
+        report.check(okk, rule, key(f.qname, 'a timeout is answered with the attention request, never with a NACK'), f.loc(h),
+                     'the TimeoutError handler of the request loop calls %s: after a timeout the Target may not have seen the request, a NACK then '
+                     'fetches the response to the request before it' % [c for c in called if c.startswith('request_')])
+
+
 def rule_did(report, prog):
     """R7 addressing: a peer that was given a DID answers only PDUs that carry it (Target: `req.did != self.did` -> ignored).
     Every DEP_REQ / DEP_RES the two roles build therefore takes its DID from a parameter of the builder helper, flags it in the
@@ -473,9 +491,36 @@ def rule_loops(report, prog):
     report.check(okk, 'C04-R5', key(fi.qname, 'RTOX value limited to 1..59'), fi.loc(), 'RTOX range check changed')
 
 
+def rule_frontend_once(report, prog, rule='C04-R6'):
+    """Whether a frame is sent again is decided by the protocol layer that knows what the frame means (an Initiator repeats a request, a
+    Target must stay silent until the request is repeated): ContactlessFrontend.exchange() hands each frame to the driver exactly
+    once -- on no path (handlers included) does a second driver exchange follow the first, and the call is not in a loop."""
+    f = prog.func('nfc.clf.ContactlessFrontend.exchange')
+    cfg = cfg_of(f)
+    alias = set()
+    for st in walk_no_nested(f.node):
+        if isinstance(st, ast.Assign) and norm(st.value) in ('self.device.send_cmd_recv_rsp', 'self.device.send_rsp_recv_cmd'):
+            alias.update(t.id for t in st.targets if isinstance(t, ast.Name))
+    sites = []
+    for c in walk_no_nested(f.node):
+        if isinstance(c, ast.Call) and (norm(c.func) in ('self.device.send_cmd_recv_rsp', 'self.device.send_rsp_recv_cmd')
+                                        or (isinstance(c.func, ast.Name) and c.func.id in alias)):
+            node = cfg_node_for(cfg, enclosing_stmt(c))
+            if node is not None and node not in sites:
+                sites.append(node)
+    report.floor(rule + ' driver exchange sites', len(sites), 1)
+    again = [(a, b) for a in sites for b in sites if any(b in cfg.reachable(m) for m, _l in a.succ)]
+    report.check(not again, rule, key(f.qname, 'one frame, one driver exchange: no second hand-over on any path'), f.loc(again[0][1].ast) if again else f.loc(),
+                 'ContactlessFrontend.exchange() can hand the same frame to the driver a second time (`%s` is reachable after `%s`): in listen mode '
+                 'that repeats the previous response to a request the Target could not read' % (
+                     norm(again[0][1].ast)[:60] if again else '', norm(again[0][0].ast)[:60] if again else ''))
+
+
 def run(report, prog, tier):
     res = Resolver(prog)
     rule_partition(report, prog)
+    rule_frontend_once(report, prog)
+    rule_timeout_recovery(report, prog)
     rule_reassembly(report, prog)
     rule_recovery(report, prog)
     rule_did(report, prog)
